@@ -503,10 +503,12 @@ func (root *Root) resolveField(
 	if field.ConType == nil {
 		field.ConType = t
 		ea = append(ea, field.sortArgs()...)
-		if 0 < len(ea) {
-			Errors(ea).in(field.key())
-			return
-		}
+	} else {
+		ea = append(ea, field.badArgErrors()...)
+	}
+	if 0 < len(ea) {
+		Errors(ea).in(field.key())
+		return
 	}
 	const queryType = "Query"
 	var ea2 []error
